@@ -141,6 +141,52 @@ def _loops(masked, body_open):
     return res
 
 
+def _tail_pos(masked, ob):
+    """position where a `last:` proof block goes: before the tail expression of the body if the
+    function has one, else just before the closing brace"""
+    cb = lex.match_close(masked, ob)
+    has_ret = "->" in masked[:ob]
+    if not has_ret:
+        return cb
+    # last top-level ';'
+    k = ob + 1
+    depth = 0
+    last_semi = ob
+    while k < cb:
+        c = masked[k]
+        if c in "([{":
+            depth += 1
+        elif c in ")]}":
+            depth -= 1
+        elif c == ";" and depth == 0:
+            last_semi = k
+        k += 1
+    pos = last_semi + 1
+    while True:
+        m = re.match(r"\s*", masked[pos:cb])
+        q = pos + m.end()
+        if q >= cb:
+            return cb
+        km = re.match(r"(if|while|for|loop|match|unsafe)\b|\{", masked[q:cb])
+        if not km:
+            return q
+        # skip this block statement (with else chains); if nothing follows it *is* the tail
+        b = lex.find_top_level(masked, q, cb, "{")
+        if b < 0:
+            return q
+        e = lex.match_close(masked, b) + 1
+        while True:
+            em = re.match(r"\s*else\b", masked[e:cb])
+            if not em:
+                break
+            b = lex.find_top_level(masked, e + em.end(), cb, "{")
+            e = lex.match_close(masked, b) + 1
+        rest = masked[e:cb].strip()
+        if rest == "":
+            return q      # the block is the tail expression
+        pos = e
+
+
 def _count_asserts(text):
     return len(re.findall(r"\bassert\s*\(|\bassert\s+forall\b", lex.mask(text)))
 
@@ -308,7 +354,10 @@ def build_fn(unit, file_spec, item_spec, opts, sections, log, probes=False):
                     p = ob + 1
                     edits.append((p, 0, [("", None)] + [(ln, c) for ln in body.split("\n")]))
                 else:
-                    p = lex.match_close(masked, ob)
+                    p = _tail_pos(masked, ob)
+                    ls = text.rfind("\n", 0, p) + 1
+                    if text[ls:p].strip() == "":
+                        p = ls
                     edits.append((p, 0, [(ln, c) for ln in body.split("\n")] + [("", None)]))
 
     info.probes = []
